@@ -168,6 +168,14 @@ def _refcount(col, rule="C03.R5"):
     st = [e for e in sx.of_kind("store") if e.target == ("sub", S.SELF, it)]
     want = ("op", "+", S.mcall(S.SELF, "get", it, ("const", "0")), ("const", "1"))
     ok = len(st) == 1 and S.match(st[0].value, want) is not None and sx.cfg.must_pass(sx.cfg.ENTRY, sx.cfg.EXIT, [st[0].nid])
+    if not ok and len(st) == 2:
+        # look-before-you-leap spelling: present -> count + 1, absent -> 1
+        present, absent = ("cmp", "in", it, S.SELF), ("cmp", "not in", it, S.SELF)
+        cnt_ = ("sub", S.SELF, it)
+        inc = [e for e in st if present in sx.conds(e.nid) and (S.match(e.value, ("op", "+", cnt_, ("const", "1"))) is not None
+                                                                 or S.match(e.value, ("aug", "+", cnt_, ("const", "1"))) is not None)]
+        new = [e for e in st if absent in sx.conds(e.nid) and e.value == ("const", "1")]
+        ok = len(inc) == 1 and len(new) == 1 and sx.cfg.must_pass(sx.cfg.ENTRY, sx.cfg.EXIT, [inc[0].nid, new[0].nid])
     col.add(rule, "RefCount.append#increment", ok, sx.loc(sx.fn), "append increments the count of the item (absent = 0)",
             S.show(st[0].value) if st else "no store")
     # extend: append each
